@@ -58,7 +58,7 @@ Ltac tie_norm :=
        set_u_wstate set_u_wafter set_u_ring set_u_tail set_u_head set_u_count
        setu_state setu_index setu_position setu_cmd setu_var setu_type setu_wbuf setu_wstate
        setu_wafter setu_ring setu_tail setu_head setu_count
-       andb orb negb fst snd length].
+       andb orb negb fst snd Datatypes.length].
 
 (* named constants and light model helpers (setter chains, at most one match): unfolded so that
    a field read AFTER a helper call can be evaluated *)
@@ -75,7 +75,7 @@ Ltac tie_unfold_light :=
              is_busy is_hold hold_exit process_hold_state process_io_write_wait
              unsolicited_process_io_write_wait start_print_cmd_list cmd_list_next_cmd
              start_flush_after_ok start_flush_after set_loop_state cmd_of cmd_at
-             ring_empty ring_full
+             ring_empty ring_full txt_ERROR txt_OK
              asz usz g_pos g_buf g_cmd g_var g_index g_bsz setg_pos setg_buf setg_var setg_index].
 
 (* the scrutinee on which the evaluation of t is stuck *)
@@ -108,14 +108,39 @@ Ltac tie_split x :=
   | _ => destruct x eqn:E; try rewrite E in *
   end.
 
+(* a leaf: both sides are setter chains.  Setters and projections are unfolded completely (both
+   sides become constructor terms over the projections of s), so that a mismatch is found
+   field by field instead of by a long failing conversion *)
+Ltac tie_leaf :=
+  cbv beta iota zeta delta
+      [k u cbuf ubuf mem dis_cmd dis_grp fault gL gS gR
+       set_k set_u set_cbuf set_ubuf set_mem set_dis_cmd set_dis_grp set_fault set_gL set_gS set_gR
+       set_fault_flag
+       k_index k_partial k_length k_position k_write_size k_cmd k_var k_type k_char k_state k_cr
+       k_hold k_hold_exit k_wbuf k_wstate k_wafter k_implicit
+       set_k_index set_k_partial set_k_length set_k_position set_k_write_size set_k_cmd set_k_var
+       set_k_type set_k_char set_k_state set_k_cr set_k_hold set_k_hold_exit set_k_wbuf
+       set_k_wstate set_k_wafter set_k_implicit
+       setk_index setk_partial setk_length setk_position setk_write_size setk_cmd setk_var
+       setk_type setk_char setk_state setk_cr setk_hold setk_hold_exit setk_wbuf setk_wstate
+       setk_wafter setk_implicit
+       u_state u_index u_position u_cmd u_var u_type u_wbuf u_wstate u_wafter u_ring u_tail
+       u_head u_count
+       set_u_state set_u_index set_u_position set_u_cmd set_u_var set_u_type set_u_wbuf
+       set_u_wstate set_u_wafter set_u_ring set_u_tail set_u_head set_u_count
+       setu_state setu_index setu_position setu_cmd setu_var setu_type setu_wbuf setu_wstate
+       setu_wafter setu_ring setu_tail setu_head setu_count];
+  reflexivity.
+
+(* No backtracking: once a scrutinee is chosen, the split is committed (tryif), so a failing
+   leaf fails the whole tactic at once. *)
 Ltac tie_go n :=
   tie_norm;
   lazymatch goal with
   | |- ?L = ?R =>
-    first [ let x := tie_stuck L in tie_next n x
-          | let x := tie_stuck R in tie_next n x
-          | reflexivity
-          | exfalso; cbn [length] in *; first [lia | congruence] ]
+    tryif (let x := tie_stuck L in idtac) then (let x := tie_stuck L in tie_next n x)
+    else tryif (let x := tie_stuck R in idtac) then (let x := tie_stuck R in tie_next n x)
+    else first [ tie_leaf | exfalso; cbn [Datatypes.length] in *; first [lia | congruence] ]
   end
 with tie_next n x :=
   lazymatch n with
